@@ -90,6 +90,8 @@ pub fn class_menu() -> Vec<&'static str> {
     vec![
         "a", "\\x61", "[a]", "[^a]", "b", "\\.", ".", "[.]", "[ab]", "[ba]", "[^ab]", "[a-c]", "[^a-c]", "\\d", "\\D", "[\\d]", "[^\\d]", "\\w", "\\W", "\\s", "\\S", "\\pL", "\\PL", "\\p{Alphabetic}", "\\P{Alphabetic}",
         "\\pN", "\\PN", "[[:alpha:]]", "[[:^alpha:]]", "[^[:alpha:]]", "[[:digit:]]", "[\\pL]", "[^\\pL]", "[\\PL]", "[a-c--b]", "[a-c&&b]", "[a-c~~b]",
+        // literals that agree with `a` in their low 7 / 8 / 16 bits (U+00E1, U+0161, U+10061)
+        "á", "š", "\\x{10061}",
     ]
 }
 
